@@ -1,7 +1,7 @@
 import BoxoModel.C30.Model
 /-! Line-protocol driver for C30 (see /verif/docs/HOWTO.md).
 ops:
-  file <seed> <size> <layout> <chunk> <links> <raw> <cidv> <asked-mtime> <cid> <assethash> <stored-mtime>
+  file <seed> <size> <layout> <chunk> <links> <raw> <cidv> <asked-mtime sec.nanos> <cid> <assethash> <stored-mtime sec> <stored-mtime nanos>
   req <GET|HEAD> <fn:0|1> <range> <if-range> <if-none-match> <if-match> <iusT> <imsT> <irT> <ius> <ims>
       (header values in hex, `-` = absent; *T = http.ParseTime result in Unix seconds or `x`)
 Run: `lake env lean --run Drivers/C30.lean < ops.txt > model.out` -/
@@ -47,18 +47,19 @@ def step (cur : Option File) (line : String) : Option File × String :=
   match (line.trimAscii.toString.splitOn " ").filter (· ≠ "") with
   | ["case", n] => (none, s!"case {n}")
   | ["end"] => (none, "end")
-  | ["file", seed, size, _lay, _chunk, _links, _raw, _cidv, _askedMtime, cid, ah, mtime] =>
-    match seed.toNat?, size.toNat?, mtime.toInt? with
-    | some seed, some size, some mt =>
+  | ["file", seed, size, _lay, _chunk, _links, _raw, _cidv, _askedMtime, cid, ah, mtime, nanos] =>
+    match seed.toNat?, size.toNat?, mtime.toInt?, nanos.toNat? with
+    | some seed, some size, some mt, some ns =>
       let q : Bytes := [34]
       let f : File := {
         content := genContent seed size
         etag := q ++ ascii cid ++ q
         dirEtag := q ++ ascii "DirIndex-" ++ ascii ah ++ ascii "_CID-" ++ ascii cid ++ q
         dagEtag := q ++ ascii "DagIndex-" ++ ascii ah ++ ascii "_CID-" ++ ascii cid ++ q
-        modSec := mt }
+        modSec := mt
+        modNanos := ns }
       (some f, s!"ok {size}")
-    | _, _, _ => (cur, "bad-op")
+    | _, _, _, _ => (cur, "bad-op")
   | ["req", m, fn, rg, ir, inm, im, iusT, imsT, irT, _ius, _ims] =>
     match cur, unhex rg, unhex ir, unhex inm, unhex im, optInt iusT, optInt imsT, optInt irT with
     | some f, some rg, some ir, some inm, some im, some iusT, some imsT, some irT =>
